@@ -7,6 +7,7 @@ import (
 	"fmt"
 	"net/http"
 	"regexp"
+	"runtime"
 	"time"
 
 	"github.com/vicanso/pike/cache"
@@ -81,8 +82,8 @@ func segments(data []byte) (filter []byte, hasF bool, hdr []byte, hasH bool) {
 }
 
 type codecOracles struct {
-	hdrDec, regex     []string
-	seenH, seenR      map[string]bool
+	hdrDec, regex []string
+	seenH, seenR  map[string]bool
 }
 
 func (o *codecOracles) observe(data []byte) {
@@ -104,7 +105,42 @@ func (o *codecOracles) observe(data []byte) {
 	}
 }
 
+// allocBound: what a decode of n input bytes may allocate ("a small multiple of the input size")
+func allocBound(n int) uint64 { return uint64(64*n + 256<<10) }
+
+// lengthFields: offsets of the 4-byte length fields of a well-formed record (entry response size;
+// inside the response: profile name, filter, header, gzip, br, raw)
+func lengthFields(rec []byte) []int {
+	var offs []int
+	u32 := func(p int) int {
+		return int(rec[p])<<24 | int(rec[p+1])<<16 | int(rec[p+2])<<8 | int(rec[p+3])
+	}
+	if len(rec) < 8 {
+		return nil
+	}
+	offs = append(offs, 4) // response size
+	if u32(4) == 0 {
+		return offs
+	}
+	p := 8
+	field := func(withData bool) bool {
+		if p+4 > len(rec) {
+			return false
+		}
+		if withData {
+			offs = append(offs, p)
+			p += 4 + u32(p)
+		} else {
+			p += 4
+		}
+		return p <= len(rec)
+	}
+	_ = field(true) && field(false) && field(true) && field(true) && field(false) && field(true) && field(true) && field(true)
+	return offs
+}
+
 type decodeResult struct {
+	alloc    uint64
 	ok       bool
 	panicked bool
 	hung     bool
@@ -122,7 +158,11 @@ func safeDecode(data []byte) decodeResult {
 			ch <- res
 		}()
 		hc := cache.NewHTTPCache()
+		var m0, m1 runtime.MemStats
+		runtime.ReadMemStats(&m0)
 		err := hc.FromBytes(data)
+		runtime.ReadMemStats(&m1)
+		res.alloc = m1.TotalAlloc - m0.TotalAlloc
 		res.ok = err == nil
 		res.snap = hc.VerifSnapshot()
 	}()
@@ -195,7 +235,7 @@ func genVariant(r *hx.Rand) []byte {
 func runCodec(seed uint64, n int, tier string, out string, replay string) {
 	rnd := hx.NewRand(seed)
 	sum := hx.NewSummary("codec", seed)
-	sum.Rule = "one case = one structured entry (status 0..4 and out-of-range, nil/empty/multi-valued/non-ASCII/HTML-escaped/non-UTF-8 headers, body variants of length 0,1,255,256,random, profile name, min length, filter nil/compiled, timestamps incl. 0, negative, max) encoded with the real Bytes(), decoded with the real FromBytes on a fresh entry: the full record, EVERY strict prefix, and 6 mutants (bit flips, length-field edits incl. 0xFFFFFFFF, splices, garbage); each decode under recover + 5 s timeout; json/regexp answers recorded as oracle tables; non-trivial = entry with a response; distinct by record bytes"
+	sum.Rule = "one case = one structured entry (status 0..4 and out-of-range, nil/empty/multi-valued/non-ASCII/HTML-escaped/non-UTF-8 headers, body variants of length 0,1,255,256,random, profile name, min length, filter nil/compiled, timestamps incl. 0, negative, max) encoded with the real Bytes(), decoded with the real FromBytes on a fresh entry: the full record, EVERY strict prefix, and 6 mutants (bit flips, length-field edits incl. 0xFFFFFFFF, splices, garbage); each decode under recover + 5 s timeout; json/regexp answers recorded as oracle tables; non-trivial = entry with a response; distinct by record bytes; every decode is measured (runtime TotalAlloc) against 64 x input + 256 KiB; additionally each 4-byte length field of every record is set to 64 MiB, 2^31-1, 2^32-1, len and len+1 and decoded (no panic, no hang, allocation within the bound)"
 	header := "From Coq Require Import List NArith ZArith.\nImport ListNotations.\nFrom Pike Require Import Base.Bytes Model.MaxAge Model.Resp Model.Codec Corr.C09Corr.\n"
 	w := hx.NewCaseWriter(out, "codec", header, "list c9_case", "check_cases", 12, sum)
 	distinct := hx.NewDistinct()
@@ -274,12 +314,28 @@ func runCodec(seed uint64, n int, tier string, out string, replay string) {
 			}
 			inputs = append(inputs, d)
 		}
+		// directed: every length field of the record set to huge / boundary values
+		for _, off := range lengthFields(data) {
+			for _, v := range []uint32{0x04000000, 0x7fffffff, 0xffffffff, uint32(len(data)), uint32(len(data)) + 1} {
+				d := append([]byte{}, data...)
+				d[off], d[off+1], d[off+2], d[off+3] = byte(v>>24), byte(v>>16), byte(v>>8), byte(v)
+				res := safeDecode(d)
+				sum.Count("mutant:length-field")
+				if res.panicked || res.hung || res.alloc > allocBound(len(d)) {
+					sum.ImplViolations = append(sum.ImplViolations, map[string]interface{}{"property": "C09", "kind": "length-field", "panicked": res.panicked, "hung": res.hung,
+						"allocated": res.alloc, "bound": allocBound(len(d)), "field_offset": off, "field_value": v, "record_len": len(d), "data_hex": fmt.Sprintf("%x", d[:min(len(d), 96)])})
+				}
+			}
+		}
 		var decs []string
 		var fullOK bool
 		var fullSnap cache.VerifEntry
 		for k, d := range inputs {
 			or.observe(d)
 			res := safeDecode(d)
+			if !res.panicked && !res.hung && res.alloc > allocBound(len(d)) {
+				sum.ImplViolations = append(sum.ImplViolations, map[string]interface{}{"property": "C09", "kind": "allocation", "allocated": res.alloc, "bound": allocBound(len(d)), "record_len": len(d), "data_hex": fmt.Sprintf("%x", d[:min(len(d), 96)])})
+			}
 			if res.panicked || res.hung {
 				sum.ImplViolations = append(sum.ImplViolations, map[string]interface{}{"property": "C09", "kind": map[bool]string{true: "panic", false: "hang"}[res.panicked], "data_hex": fmt.Sprintf("%x", d)})
 				continue
